@@ -175,6 +175,17 @@ def judge(ctx, idx, case):
         ctx.sample({"history": case["ops"], "outcomes": st.outcomes, "names_handed_out": handed, "c_re_resolutions": cchecks}, limit=2)
 
 
+def extra_stage(tier, seed, workdir):
+    """Thorough tier: the repository's own 939 tests run with the monitor attached (pytest plugin pv.pytest_plugin)."""
+    if tier != "thorough":
+        return {}, []
+    counters, reports, tail = common.suite_under_monitors("NS", workdir)
+    counters["suite.ran"] = 1
+    viol = [{"idx": -2, "what": "NS monitor while the repository's test-suite ran (%s): %s" % ((w[1] or {}).get("context"), w[0]),
+             "payload": {"workload": "repository test-suite under monitors", "pytest": tail}, "witness": w[1]} for w in reports[:5]]
+    return counters, viol
+
+
 def run_case(ctx, idx):
     if not hasattr(ctx, "shapes"):
         ctx.shapes = set()
@@ -207,6 +218,8 @@ def floors(counters, tier, extra):
         out.append("the NS monitor itself raised %d times" % counters["mon.NS.monitor_errors"])
     if counters.get("op.dns.ok", 0) < need // 4 or counters.get("op.bundle.ok", 0) < need // 4:
         out.append("too few default-namespace settings or bundles in the histories")
+    if tier == "thorough" and counters.get("suite.NS.c_checks", 0) < 1000:
+        out.append("the monitor observed the repository's test-suite only %d times" % counters.get("suite.NS.c_checks", 0))
     out.extend(common.cov_floor(extra))
     return out
 
